@@ -398,6 +398,9 @@ def object_shapes(nm: Namer) -> Dict[str, Callable[[T, Ctx], Optional[T]]]:
                 nm("O"),
                 (F("a", x, cons=(("min", -2), ("max", 5))), F("b", x, default="0", has_default=True, default_value=0, cons=(("max", 5),))),
             )
+        if isinstance(rx, Tup):
+            # an annotated fixed-size tuple (its schema node is rewritten by the older JSON Schema versions)
+            return Obj("dataclass", nm("O"), (F("a", x, cons=(("max_items", 9),)),))
         if isinstance(rx, (Lit, EnumT)):
             # constraints on a literal / enum position: checked on the datum like anywhere else
             return Obj("dataclass", nm("O"), (F("a", x, cons=(("max", 1), ("pattern", "^a"))),))
